@@ -680,12 +680,15 @@ def np_ndim(interp, a):
     return len(sym.shape_of(a))
 
 
-@model(builtins.len)
+@model(builtins.len, always=True)
 def py_len(interp, a):
     if isinstance(a, SArr):
         return a.shape[0]
     if hasattr(a, "__pyvc_len__"):
         return a.__pyvc_len__()
+    meth = getattr(type(a), "__len__", None)
+    if meth is not None and str(getattr(meth, "__module__", "") or "").startswith("typhon") and not interp.concrete:
+        return interp.call_value(meth, [a], {}, None)
     return len(a)
 
 
@@ -810,6 +813,15 @@ def getitem_any(interp, obj, key):
         return to_sarr(list(obj)).fn(key)
     if isinstance(obj, dict) and isinstance(key, Sym):
         raise OutsideSubset("symbolic dict key")
+    if isinstance(obj, dict) and isinstance(key, _strsym.SStr):
+        # chunked-string key: the entry whose key is (symbolically) equal
+        for k2, v2 in obj.items():
+            if isinstance(k2, (str, _strsym.SStr)):
+                r = key == k2
+                if r is True or (r is not False and interp.ctx.branch(sym.truth(r))):
+                    return v2
+        from .interp import PyRaise
+        raise PyRaise(KeyError(key))
     return interp.native(operator.getitem, obj, key)
 
 
